@@ -6,7 +6,7 @@ case = {
   "params": {...shape parameters...},
   "margins": [m, ...]            # Margin wrappers, innermost first (possibly empty)
   "pose0": [16 floats],          # construction pose (row major 4x4)
-  "ops": [ {"op": "update", "src": fresh|stack|tm|fortran|strided, "pose": [16], "stack": [[16]..], "i": k}
+  "ops": [ {"op": "update", "src": fresh|stack|tm|tm2|inplace|stack_inplace|fortran|strided, "pose": [16], "stack": [[16]..], "i": k}
          | {"op": "support", "d": [3], "dsrc": fresh|strided}
          | {"op": "aabb"} | {"op": "center"} | {"op": "first_vertex"} | {"op": "c2o"}
          | {"op": "gjk", "other": {"cls":..., "params":..., "pose": [16]}} ],
@@ -90,9 +90,22 @@ def flags(c, prefix=""):
     return out
 
 
+_BUF = {}
+
+
 def materialise_pose(op):
     """The array object handed to update_pose, built the way `src` says."""
     src = op["src"]
+    if src == "inplace":      # ONE pose buffer the caller overwrites in place and hands over again and again
+        if "pose" not in _BUF:
+            _BUF["pose"] = np.empty((4, 4))
+        _BUF["pose"][...] = arr44(op["pose"])
+        return _BUF["pose"]
+    if src == "stack_inplace":   # one matrix out of a persistent stack of poses that is overwritten in place
+        if "stack" not in _BUF:
+            _BUF["stack"] = np.zeros((3, 4, 4))
+        _BUF["stack"][op["i"]] = arr44(op["pose"])
+        return _BUF["stack"][op["i"]]
     if src == "fresh":
         return arr44(op["pose"])
     if src == "stack":
@@ -172,6 +185,7 @@ def battery(c, case):
 def run_case(case):
     out = {}
     try:
+        _BUF.clear()
         pose0 = arr44(case["pose0"])
         c = wrap(make(case["cls"], case["params"], pose0), case["margins"])
         out["flags0"] = flags(c)
